@@ -20,3 +20,35 @@ var G5int = G5[int]
 //
 //go:noinline
 func CallG5(x int) int { return G5[int](x) }
+
+// G5int64 is a second instantiation with a different gc shape (its own body, its own entry): target 18.
+var G5int64 = G5[int64]
+
+// CallG5b calls the second instantiation directly.
+//
+//go:noinline
+func CallG5b(x int64) int64 { return G5[int64](x) }
+
+// ShA and ShB are two pointer types: Q[*ShA] and Q[*ShB] have the same gc shape, i.e. ONE compiled body.
+type ShA struct{ X int }
+type ShB struct{ Y int }
+
+// Q is the generic function of the same-shape lane.
+//
+//go:noinline
+func Q[P any](p P, x int) int {
+	if x > 1<<53 {
+		return helper(x, 1) + helper(x+40, x+41)
+	}
+	return x*7 + 1020
+}
+
+var QA = Q[*ShA]
+
+//go:noinline
+func CallQA(x int) int { return Q[*ShA](&ShA{}, x) }
+
+//go:noinline
+func CallQB(x int) int { return Q[*ShB](&ShB{}, x) }
+
+func KQA(p *ShA, x int) int { return 100001 }
